@@ -279,6 +279,8 @@ def translate_pattern(pattern: str, flags: int = 0, xsd_version: str = '1.0',
             else:
                 msg = "invalid escape sequence '\\{}' at position {}: {!r}"
                 raise RegexError(msg.format(pattern[pos], pos - 1, pattern))
+        elif ch == '#' and flags & re.VERBOSE:
+            regex.append('\\#')  # the x flag only removes whitespace: '#' is a literal, not a comment
         else:
             regex.append(ch)
         pos += 1
